@@ -180,3 +180,55 @@ def cigar_loops(func):
                 and all(isinstance(e, ast.Name) for e in n.target.elts) and n.target.elts[0].id == "op":
             out.append(n)
     return out
+
+
+class _Region(collections.namedtuple("GRange", ["chr", "start", "end"])):
+    _fold_ok = True
+
+    def samtools(self, pad_left=0, pad_right=0, prefix=""):
+        return f"{prefix}{self.chr}:{self.start - pad_left}-{self.end + pad_right}"
+
+
+def sam_file_stub(reads, indexed=True):
+    def opened(path, reference_filename=None, **kw):
+        def check_index():
+            if indexed is None:
+                raise AttributeError("no index on SAM")
+            return bool(indexed)
+        return Obj(check_index=check_index, header={"SQ": [{"SN": "22"}]}, fetch=lambda region=None, **k: list(reads), path=path)
+    return opened
+
+
+def fold_load_sam(repo, reads, in_region=lambda region, read, prefix: True, indexed=True, debug=None, parse=None):
+    """Sample._load_sam folded whole on a file stub holding `reads`. -> (kind, value, me, parse calls)."""
+    from sa.fold import Lifted
+
+    f = repo.func("sam::Sample._load_sam")
+    calls = []
+
+    def pr(*a, **kw):
+        calls.append(a)
+        return parse(*a, **kw) if parse else ((0, 0, 0), [])
+
+    me = Obj(_parse_read=pr, gene=Obj(get_wide_region=lambda: _Region("22", 50, 500), chr="22", name="G"), _prefix="", reads=None, _dump_reads=[],
+             is_long_read=False, profile=Obj(cn_region=None, sam_long_reads=False, indelpost=False), _realign_indels=lambda *a, **k: None,
+             path="in.bam", _indel_sites={}, _insertion_reads={}, _insertion_counts={}, phases={}, _fusion_counter={})
+    fn = Lifted(f, funcs={"pysam.AlignmentFile": sam_file_stub(reads, indexed), "chr_prefix": lambda c, names: "", "_in_region": in_region,
+                          "os.path.abspath": lambda q: q, "tempfile.TemporaryDirectory": lambda *a, **k: "tmpdir",
+                          "defaultdict": collections.defaultdict})
+    try:
+        return "return", fn(me, "in.bam", None, debug), me, calls
+    except Raised as r:
+        return "raise", r.kind, me, calls
+
+
+def fold_load_cn_region(repo, reads, region, in_region=lambda region, read, prefix: True, indexed=True):
+    """Sample._load_cn_region folded whole. -> neutral depth table (position -> count)."""
+    from sa.fold import Lifted
+
+    f = repo.func("sam::Sample._load_cn_region")
+    me = Obj(_dump_cn=None, _prefix="", gene=Obj(chr="22", name="G"), path="in.bam")
+    fn = Lifted(f, funcs={"pysam.AlignmentFile": sam_file_stub(reads, indexed), "chr_prefix": lambda c, names: "", "_in_region": in_region,
+                          "defaultdict": collections.defaultdict})
+    out = fn(me, "in.bam", None, _Region(*region))
+    return out if out is not None else me._dump_cn
